@@ -168,6 +168,11 @@ SCENARIOS = [
     # the same two without refresh and with tCCD = 2 controller cycles: only the anti-starvation timers can turn the bus around
     ("samerow-reads-vs-writes-other-bank-norefresh-tccd2", (0, [4]), (1, 1), dict(no_refresh=True, tccd=2)),
     ("samerow-writes-vs-reads-other-bank-norefresh-tccd2", (1, [5]), (0, 1), dict(no_refresh=True, tccd=2)),
+    # a throttled aggressor: one row-hit command every 2 or 3 cycles (bubbles in the stream), no refresh to turn the bus around
+    ("paced2-reads-vs-writes-other-bank-norefresh", (0, [4]), (1, 1), dict(no_refresh=True, pace=1)),
+    ("paced3-reads-vs-writes-other-bank-norefresh", (0, [4]), (1, 1), dict(no_refresh=True, pace=2)),
+    ("paced2-writes-vs-reads-other-bank-norefresh", (1, [5]), (0, 1), dict(no_refresh=True, pace=1)),
+    ("paced3-writes-vs-reads-other-bank-norefresh", (1, [5]), (0, 1), dict(no_refresh=True, pace=2)),
 ]
 
 
@@ -204,16 +209,19 @@ def adversary_job(args):
         yield A.wdata.valid.eq(1); yield V.wdata.valid.eq(1); yield A.wdata.we.eq(0xff); yield V.wdata.we.eq(0xff)
         ka = 0
         v_state = "idle"; v_t0 = 0; gap = 0
+        a_gap = 0; pace = opts.get("pace", 0)
         for t in range(N):
             a_addr = rnd.randrange(1 << split) | (0 << split) | (arows[ka % len(arows)] << (split + bb))
-            yield A.cmd.valid.eq(1); yield A.cmd.we.eq(awe); yield A.cmd.addr.eq(a_addr)
+            yield A.cmd.valid.eq(1 if a_gap == 0 else 0); yield A.cmd.we.eq(awe); yield A.cmd.addr.eq(a_addr)
             if v_state == "idle" and gap == 0:
                 v_state = "offer"; v_t0 = t
                 yield V.cmd.addr.eq(rnd.randrange(1 << split) | (vbank << split) | (rnd.randrange(4) << (split + bb)))
             yield V.cmd.valid.eq(1 if v_state == "offer" else 0); yield V.cmd.we.eq(vwe)
             yield
-            if (yield A.cmd.ready):
-                ka += 1
+            if a_gap:
+                a_gap -= 1
+            elif (yield A.cmd.ready):
+                ka += 1; a_gap = pace
             if v_state == "offer" and (yield V.cmd.ready):
                 res["worst"] = max(res["worst"], t - v_t0); v_state = "wait"; v_t0 = t
             elif v_state == "wait" and ((yield V.wdata.ready) if vwe else (yield V.rdata.valid)):
